@@ -109,6 +109,18 @@ func (f LeveldbDiskStorage) SetTableMeta(tbl *btapb.Table) {
 	verifPoint("SetTableMeta.afterRename")
 }
 
+// Delete removes a table's persisted metadata and rows. The metadata file goes first: from then on a restart no
+// longer sees the table, whatever is left of its directory.
+func (f LeveldbDiskStorage) Delete(tbl *btapb.Table) {
+	path := filepath.Join(f.Root, tbl.Name)
+	if err := os.Remove(path + ".table.proto"); err != nil && !os.IsNotExist(err) {
+		f.errLog(err, "os.Remove %q", path+".table.proto")
+	}
+	if err := os.RemoveAll(path); err != nil {
+		f.errLog(err, "os.RemoveAll %q", path)
+	}
+}
+
 func (f LeveldbDiskStorage) errLog(err error, format string, args ...interface{}) {
 	if f.ErrLog != nil {
 		f.ErrLog(err, fmt.Sprintf(format, args...))
